@@ -4,6 +4,7 @@
    hand; that Rust really runs those drops (unwinding in the blocking pool, futures dropped by the
    executor) is observed by the correspondence check (cache directory listing), not proved. *)
 From SV Require Import Base.Bytes Base.IO Model.Conn Spec.ConnSpec Proofs.ConnP Model.Server Proofs.ServerP.
+From SV Require Import Base.SrcAst Generated.SourceParams Tie.ServerTie.
 
 Section C10.
 Variable payload : Type.
@@ -36,6 +37,18 @@ Theorem c10_connection_end_no_live_file :
   forall fuel k c log files n,
     live files n = n -> live (lo_files _ _ (loop fuel k c log files)) n = n.
 Proof. intros. now apply loop_no_live_file. Qed.
+(* C10.src  handle_http_conn_once and the loop of handle_http_conn (src/http_conn.rs) as TRANSLATED statement by statement ON THIS RUN
+   (props/srcparams.py -> Generated/SourceParams.v: src_once, src_conn_loop), interpreted by Tie/ServerTie.v over the connection
+   machine, IS the function the theorems above are about -- for every reader, writer, handler, connection state
+   and permit history. *)
+Theorem c10_handle_once_is_the_source :
+  forall c, eval_once payload resp read_req resp_code write_out resp_continue fix16 handler small_body_len cache_dir src_once c = once c.
+Proof. intros. apply handle_once_tie. Qed.
+Theorem c10_conn_loop_is_the_source :
+  forall fuel k c log files,
+    eval_loop payload resp read_req resp_code write_out resp_continue fix16 error_response handler small_body_len cache_dir revoked
+              src_once src_conn_loop fuel k c log files = loop fuel k c log files.
+Proof. intros. apply conn_loop_tie. Qed.
 End C10.
 
 Example c10_nonvacuous :
@@ -43,5 +56,11 @@ Example c10_nonvacuous :
   balanced [FCreate; FHandOver] = false /\ live [FCreate; FHandOver] 0 = 1%nat.
 Proof. repeat split. Qed.
 
+Theorem c10_server_translation_complete : src_problems_conn_loop = 0%nat.
+Proof. exact conn_loop_translated. Qed.
+
 Print Assumptions c10_request_files_balanced.
 Print Assumptions c10_connection_end_no_live_file.
+Print Assumptions c10_handle_once_is_the_source.
+Print Assumptions c10_conn_loop_is_the_source.
+Print Assumptions c10_server_translation_complete.
